@@ -3,7 +3,7 @@
    followed by Print Assumptions.  The model [merge] (M_Merge) is tied to profile.Merge of /repo's
    current tree by the correspondence check on full result dumps (R_C03). *)
 From Coq Require Import List ZArith String Bool Permutation.
-From PV Require Import M_Merge S_Merge L_Assoc L_Merge.
+From PV Require Import M_Merge S_Merge L_Assoc L_Merge L_SampleKey.
 Import ListNotations.
 Open Scope Z_scope.
 
@@ -35,6 +35,15 @@ Theorem merge_perm : forall ps ps' q q',
   forall k j, eq64 (wt q k j) (wt q' k j).
 Proof. exact merge_perm_lemma. Qed.
 Print Assumptions merge_perm.
+
+(* -- ... and neither do the header fields documented as symmetric -- *)
+Theorem merge_perm_headers : forall ps ps' q q',
+  Permutation ps ps' -> merge ps = MOk q -> merge ps' = MOk q' ->
+  p_timenanos q = p_timenanos q' /\ p_durationnanos q = p_durationnanos q' /\
+  (in_F25 ps = false -> p_period q = p_period q') /\
+  (forall c, In c (p_comments q) <-> In c (p_comments q')).
+Proof. exact merge_perm_headers_lemma. Qed.
+Print Assumptions merge_perm_headers.
 
 (* -- header fields combine as documented: earliest non-zero time, int64 sum of durations, maximum
    period (for non-negative periods), de-duplicated union of comments in order of first occurrence,
@@ -110,6 +119,14 @@ Theorem compact_idempotent_partial : forall ps q,
              NoDup (map (sample_ident_of q') (p_sample q')).
 Proof. exact compact_idempotent_partial_lemma. Qed.
 Print Assumptions compact_idempotent_partial.
+
+(* -- the model compares sample keys as tuples, the Go code as varint byte strings: the byte
+   encoding (compared with the real sampleKey byte for byte on every run) is injective on keys whose
+   ids are non-zero uint64, numeric values int64 and lengths < 2^64 -- *)
+Theorem sample_key_injective : forall a b,
+  skey_ok a -> skey_ok b -> skey_bytes a = skey_bytes b -> a = b.
+Proof. exact skey_bytes_injective_lemma. Qed.
+Print Assumptions sample_key_injective.
 
 (* -- non-vacuity -- *)
 Definition ex_vt := {| vt_type := "samples"; vt_unit := "count" |}.
